@@ -565,6 +565,13 @@ func runMonitors(prop, dir string) {
 			}
 			continue
 		}
+		if i := strings.Index(trace, "decoder-dropped"); i >= 0 {
+			end := i + 60
+			if end > len(trace) {
+				end = len(trace)
+			}
+			m.fail("gateway-frame-dropped-by-decoder", "a well-formed frame of the gateway did not survive the client's decoder: "+trace[i:end])
+		}
 		hdr, tcp, evs, bad := parseLine(script, trace)
 		for _, e := range evs {
 			if !e.in {
